@@ -46,7 +46,7 @@ CHECKS["C05"] = ("model_checking",
     "TLC; harness/reference.py (mpmath 30-digit closed forms written from the documented formulas; von Mises cdf by quadrature); parameter vectors are sampled, not exhausted; tolerances in spec/DistLawsOps.tla",
     "DESIGN.md §4 C05")
 CHECKS["C08"] = ("model_checking",
-    "TLC enumerates every (family, fixed/dependent partition, chain kind, call shape, method) case (ParamRouting.tla scenario cond), each executed on real ConditionalDistribution objects and judged by TLC with coverage asserted",
+    "TLC enumerates every (family, fixed/dependent partition, chain kind, call shape, method) case (ParamRouting.tla scenario cond), each executed on real ConditionalDistribution objects and judged by TLC with coverage asserted; ParamRoutingBounds.tla: bounds of a dependence function are fit-time information and do not influence evaluation (deviation ClipInit must violate)",
     "Finite case analysis over families x non-empty dependent sets x plain/default/chained dependence callables x scalar/vector call shapes x pdf/cdf/icdf/draw_sample: 3712 cases all executed; "
     "the conditional object is compared with a fresh template constructed with the resolved values element by element (CondEqualsTemplateAtValues, VectorisedEqualsPointwise, "
     "ChainedSameGiven, ResultShape); three mutation configs must violate.",
@@ -60,7 +60,7 @@ CHECKS["C11"] = ("model_checking",
     "TLC; the Supports(fam, method, F) table is transcribed from the documented behaviour (lsq only for exponentiated Weibull with F in {{}, {delta}})",
     "DESIGN.md §4 C11")
 CHECKS["C12"] = ("exploration",
-    "TLC explores the fit life cycle state machine (FitLaws.tla) and emits (family, parameter class, n, scale factor, start kind) cases; each is executed (fit, scaled fit, re-fit) and the measured log-likelihoods / parameters are judged by TLC (Trace_C12.tla)",
+    "TLC explores the fit life cycle state machine (FitLaws.tla) and emits (family, parameter class, n, scale factor, start kind) cases; each is executed (fit, scaled fit, re-fit) and the measured log-likelihoods / parameters are judged by TLC (Trace_C12.tla); FitLawsSmall.tla emits small-scale 3-parameter Weibull cases started at / near the generating parameters",
     "Likelihood optimality cannot be established by a model: the state machine start -> fit(d) -> fit(c*d) -> re-fit is small (model checked with four mutation configs), the claims "
     "NoLikelihoodLoss, AtLeastGenerating (MomentsMatch for the norm-fit log-normal), Admissible, ScaleEquivariant (per-family ScaleMap table in the spec) are judged on seeded samples from "
     "regular parameter classes of nine families; 354 (quick) / 2934 (thorough) life cycles.",
@@ -77,7 +77,7 @@ CHECKS["C13"] = ("model_checking",
 CHECKS["C18"] = ("model_checking",
     "TLC enumerates every single malformation at every position of valid 1-4 dimensional descriptions and every pair (Validation.tla), emits them, each is built and run on the real code as far as its stage, and TLC compares the observed stage/exception with WellFormed/Stage and asserts coverage of the enumerated set",
     "The quantifier is a finite catalogue of malformations x positions x pairs: 4403 (quick) / 21720 (thorough) cases, all executed; RejectedNotComputed, AcceptedWhenWellFormed, DocumentedClass; "
-    "MC_Validation_mut (no hierarchy check) must violate.",
+    "twelve named deviations (no hierarchy check, None-valued keys accepted, None / number entries of `parameters` accepted, ...) must violate; the TooFew malformation also uses the model's default slicer after a sibling model relaxed its own.",
     "TLC; the catalogue of malformations is transcribed from the property statement; carrier families rotate in quick",
     "DESIGN.md §4 C18")
 CHECKS["C03"] = ("model_checking",
@@ -111,7 +111,7 @@ CHECKS["C09"] = ("model_checking",
     "compared at 2e-3 (Nelder-Mead), least squares at 1e-6; known finding: PointsPerIntervalSlicer with tied conditioning values",
     "DESIGN.md §4 C09")
 CHECKS["C01"] = ("model_checking",
-    "TLC model checks the inverse-Rosenblatt chain (Rosenblatt.tla) for every conditional_on structure up to 4 dimensions over abstract monotone quantile maps; TLC-chosen configurations are built from the shipped families, IFORM/ISORM contours computed and every point mapped back and judged by TLC (Trace_C01.tla)",
+    "TLC model checks the inverse-Rosenblatt chain (Rosenblatt.tla) for every conditional_on structure up to 4 dimensions over abstract monotone quantile maps; TLC-chosen configurations are built from the shipped families, IFORM/ISORM contours computed and every point mapped back and judged by TLC (Trace_C01.tla); RosenblattHist.tla: one contour point computed twice on one object with a direct write to an inner object in between (deviation stale memo must violate), its histories replayed on real models",
     "The structural half (which column conditions which variable, order of computation) is finite: all structures for n=2,3,4 incl. inadmissible ones, lattice quantile maps, mutation 'reads the wrong "
     "column' must violate InverseRosenblatt. The numeric half is judged per contour point of real models (371 models quick / several thousand thorough): RadiusIsBeta, BetaIsRef (independent "
     "normal / chi-square quantiles), Count, DirectionsDistinct, AnglesEquallySpaced, MaxIsMarginalQuantile and ProbeColumn (families whose location identifies the conditioning column).",
@@ -132,10 +132,10 @@ CHECKS["C07"] = ("model_checking",
     "TLC; DKW bound; von Mises compared modulo 2 pi with kappa <= 4",
     "DESIGN.md §4 C07")
 CHECKS["C19"] = ("model_checking",
-    "TLC model checks the ownership rules over all histories of new/fit/eval on two models (Purity.tla, three deviations must violate), emits the histories; a seeded subset is replayed on models from the six predefined getters with full object-graph fingerprints after every operation, judged by TLC (Trace_C19.tla)",
+    "TLC model checks the ownership rules over all histories of new/fit/eval on two models (Purity.tla, three deviations must violate), emits the histories; a seeded subset is replayed on models from the six predefined getters with full object-graph fingerprints after every operation, judged by TLC (Trace_C19.tla); TLC-simulated whole-API sessions (Virocon.tla: results are functions of the mutator history only) are replayed in fresh processes against canonical fresh-model runs and judged by TLC (Trace_Virocon.tla)",
     "Purity and absence of shared state are statements about histories: every history up to length 5-6 over two models is explored against the rules (shared dependence function, fit writes the "
     "template, caching evaluation must violate). 60 (quick) / 700 (thorough) emitted histories are executed with 15 evaluation kinds; (incl. a repeat leg: every kind twice in a row); after each operation every mutable object reachable from "
-    "every model and every caller array is fingerprinted by bit pattern: EvalIsPure, InputsUntouched, FitIsLocal, TemplateUntouched, FitWritesOnlyFittedState, Repeatable, FreshGraphsDisjoint.",
+    "every model and every caller array is fingerprinted by bit pattern: EvalIsPure, InputsUntouched, FitIsLocal, TemplateUntouched, FitWritesOnlyFittedState, Repeatable, FreshGraphsDisjoint. Growth module Virocon.tla (DESIGN 9.5): sessions of 12 operations over construct / fit / direct writes / evaluations / six contour classes / design conditions, save, plot / TransformedModel wrapper, model checked for short sessions with four named deviations that must violate, 24 (quick) / 240 (thorough) simulated sessions executed in a fresh process each and compared bit for bit with the same operation on a fresh model that saw only the mutators of its basis (Virocon.ResultIsFunctionOfBasis, SnapshotStable, OnlyMutatorsMutate).",
     "TLC; the fingerprint walk (plain functions treated as immutable; TransformedModel._sample cache excluded); the global numpy RNG is seeded DIFFERENTLY before every evaluation whose inputs fix the result (same seed only for the Monte-Carlo entry points without random_state); caller arrays alternately row- and column-major",
     "DESIGN.md §4 C19")
 CHECKS["C16"] = ("model_checking",
